@@ -159,7 +159,7 @@ func c13luLeaf(name string, ca *c13luCert, cn string, sans []string) *c13luCert 
 
 type c13luPKI struct {
 	caA, caB    *c13luCert
-	srvA, srvB  *c13luCert // listener certificates: both answer to "srv.test"; A also to "a.test", B to "b.test"
+	srvA, srvB  *c13luCert // listener certificates: both answer to "srv.test"; A also to "a.test", B to "b.test" and "*.b.test"
 	cliRight    *c13luCert // client certificate from the configured CA (A)
 	cliOther    *c13luCert // client certificate from another CA (B)
 	byPEM       map[string]string
@@ -181,7 +181,7 @@ func c13luSetup() *c13luPKI {
 		p.caA = c13luCA("C13 listener CA A")
 		p.caB = c13luCA("C13 listener CA B")
 		p.srvA = c13luLeaf("A", p.caA, "srv-a", []string{"srv.test", "a.test"})
-		p.srvB = c13luLeaf("B", p.caA, "srv-b", []string{"srv.test", "b.test"})
+		p.srvB = c13luLeaf("B", p.caA, "srv-b", []string{"srv.test", "b.test", "*.b.test"})
 		p.cliRight = c13luLeaf("client-right", p.caA, "client", nil)
 		p.cliOther = c13luLeaf("client-other", p.caB, "client", nil)
 		p.byPEM = map[string]string{p.srvA.CertPEM: "A", p.srvB.CertPEM: "B"}
@@ -390,7 +390,8 @@ var c13luProbes = []c13luProbe{
 	{Name: "tls/no-client-cert", SNI: "srv.test", Peer: "none"},
 	{Name: "tls/right-client-cert", SNI: "srv.test", Peer: "right-ca"},
 	{Name: "tls/other-ca-client-cert", SNI: "srv.test", Peer: "other-ca"},
-	{Name: "tls/sni=b.test", SNI: "b.test", Peer: "right-ca"},
+	// selects certificate B by wildcard label, spelled with upper-case letters (DNS names are case-insensitive)
+	{Name: "tls/sni=api.B.Test", SNI: "api.B.Test", Peer: "right-ca"},
 }
 
 func c13luTLS13() bool { return strings.Contains(os.Getenv("GODEBUG"), "tls13=1") }
@@ -625,10 +626,15 @@ func c13luWant(c c13luCfg, pr c13luProbe) string {
 	// ALPN in these probes) the first context
 	sel := ctxs[0]
 	for _, s := range ctxs {
-		names := map[string][]string{"A": {"srv-a", "srv.test", "a.test"}, "B": {"srv-b", "srv.test", "b.test"}}[s.cert]
+		names := map[string][]string{"A": {"srv-a", "srv.test", "a.test"}, "B": {"srv-b", "srv.test", "b.test", "*.b.test"}}[s.cert]
 		hit := false
+		sni := strings.ToLower(pr.SNI)
+		wild := sni
+		if i := strings.Index(sni, "."); i >= 0 {
+			wild = "*" + sni[i:]
+		}
 		for _, n := range names {
-			if n == pr.SNI {
+			if n == sni || n == wild {
 				hit = true
 			}
 		}
@@ -756,8 +762,7 @@ func c13luStored(al *activeListener) string {
 
 // fields of the stored configuration the update branch applies (handler.go,
 // "listener already exist, update the listener"): compared with the last
-// update. ConnectionIdleTimeout is applied to the activeListener only (the
-// stored configuration keeps the value of the first add): not demanded.
+// update (since d8c03ef7a the stored connection_idle_timeout is refreshed too).
 func c13luStoredDiffs(al *activeListener, want *v2.Listener) []string {
 	got := al.listener.Config()
 	var bad []string
@@ -782,6 +787,7 @@ func c13luStoredDiffs(al *activeListener, want *v2.Listener) []string {
 	cmp("use_original_dst (config)", got.OriginalDst, want.OriginalDst)
 	cmp("use_original_dst (listener)", al.listener.GetOriginalDstType(), want.OriginalDst)
 	cmp("connection idle timeout (active listener)", al.idleTimeout, want.ConnectionIdleTimeout)
+	cmp("connection idle timeout (config)", got.ConnectionIdleTimeout, want.ConnectionIdleTimeout)
 	return bad
 }
 
@@ -1007,5 +1013,5 @@ func TestVerifC13ListenerUpdateHistory(t *testing.T) {
 	p.End(complete,
 		fmt.Sprintf("breadth-first search over histories of connHandler.AddOrUpdateListener on one listener name, depth %d (1 add + %d updates), alphabet of %d configurations = TLS %v x inspector {f,t} x 2 settings of the other copied fields (network/listener/stream filters, match, buffer limit, tag, idle timeout); after every history %d probes %v over a harness loopback socket against the listener's current TLS manager (reference peer: crypto/tls, %s)",
 			depth, depth-1, len(alphabet), c13luTLSAlphabet(), len(c13luProbes), probeNames, map[bool]string{false: "tls1.2", true: "tls1.3"}[c13luTLS13()]),
-		"every successor = the history replayed on a fresh connHandler plus one AddOrUpdateListener; states merged on (stored configuration projection, probe outcomes, hidden activeListener fields, update count capped at 2); distinct = (previous configuration, last configuration, update count); compared: probe outcomes against the statement's rule for the LAST configuration and against a fresh listener with only that configuration, stored fields the update branch applies against the last configuration; after a REJECTED update (thorough: unparsable certificate) outcomes are recorded, not compared; the stored connection_idle_timeout (never updated by the code) is not demanded; sds contexts are not part of the alphabet")
+		"every successor = the history replayed on a fresh connHandler plus one AddOrUpdateListener; states merged on (stored configuration projection, probe outcomes, hidden activeListener fields, update count capped at 2); distinct = (previous configuration, last configuration, update count); compared: probe outcomes against the statement's rule for the LAST configuration and against a fresh listener with only that configuration, stored fields the update branch applies against the last configuration; after a REJECTED update (thorough: unparsable certificate) outcomes are recorded, not compared; sds contexts are not part of the alphabet")
 }
